@@ -62,18 +62,21 @@ C09SeizeExact(nd)  == Judged(nd) => SeizeExact(CfgOf(nd), PreS(nd), PostS(nd))
 C09Custody(nd)     == Judged(nd) /\ nd.a \in {"Liquidate", "Tick"} => CustodyMoves(CfgOf(nd), PreS(nd), PostS(nd))
 (* bounded response: consecutive blocks during which position bid stayed open, unsafe and enabled (ghost along the path) *)
 IsBlock(nd) == nd.a = "Tick" /\ ~Panicked(nd)
-RECURSIVE BadBlocks(_, _)
-BadBlocks(i, bid) ==
+Bad(liquid, cfg, S, bid) == IF liquid THEN StillBadLiquid(cfg, S, bid) ELSE StillBad(cfg, S, bid)
+RECURSIVE BadBlocks(_, _, _)
+BadBlocks(i, bid, liquid) ==
   LET nd == Nd(i) IN
-  IF IsRoot(nd) \/ ~StillBad(CfgOf(nd), PostS(nd), bid) \/ ~StillBad(CfgOf(nd), PreS(nd), bid) THEN 0
-  ELSE (IF IsBlock(nd) THEN 1 ELSE 0) + BadBlocks(nd.parent, bid)
+  IF IsRoot(nd) \/ ~Bad(liquid, CfgOf(nd), PostS(nd), bid) \/ ~Bad(liquid, CfgOf(nd), PreS(nd), bid) THEN 0
+  ELSE (IF IsBlock(nd) THEN 1 ELSE 0) + BadBlocks(nd.parent, bid, liquid)
 RECURSIVE MaxLen(_, _)
 MaxLen(i, bid) ==
   LET nd == Nd(i) IN
   IF IsRoot(nd) \/ ~StillBad(CfgOf(nd), PreS(nd), bid) THEN SweepLen(PostS(nd))
   ELSE LET r == MaxLen(nd.parent, bid) IN IF SweepLen(PostS(nd)) > r THEN SweepLen(PostS(nd)) ELSE r
-C09Live(i) == LET nd == Nd(i) IN
-  ~IsRoot(nd) /\ IsBlock(nd) => \A b \in Range(Post(nd).borrows) : BadBlocks(i, b.id) <= 2 * CeilDiv(MaxLen(i, b.id), CfgOf(nd).batch)
+LiveBound(i, liquid) == LET nd == Nd(i) IN
+  ~IsRoot(nd) /\ IsBlock(nd) => \A b \in Range(Post(nd).borrows) : BadBlocks(i, b.id, liquid) <= 2 * CeilDiv(MaxLen(i, b.id), CfgOf(nd).batch)
+C09Live(i) == LiveBound(i, TRUE)
+C09LiveAny(i) == LiveBound(i, FALSE)
 
 (* ---------------------------------------------------------------- C10 (lend-initiated Dutch auctions) *)
 BidOk(nd) == ~IsRoot(nd) /\ nd.a = "Bid" /\ nd.res.ok /\ HasAuc(PreS(nd), nd.args.auc) /\ AucOf(PreS(nd), nd.args.auc).lend /\ AucOf(PreS(nd), nd.args.auc).dutch
@@ -191,7 +194,7 @@ ConfModel(nd) == ~IsRoot(nd) /\ Walk(nd) /\ "mok" \in DOMAIN nd.res => Act(nd, W
 ConfNames == {"Conf_" \o x : x \in Predicted}
 Formulas == <<"C08_BooksRoot", "C08_BooksLend", "C08_BooksLendHandOver", "C08_BooksLendHandOverDrop", "C08_BooksBorrow", "C08_Ltv", "C08_LtvMismatched", "C08_LtvOpenBridged", "C08_LtvDrawBridged", "C08_PoolHeld",
               "C08_NoRelease",
-              "C09_BorrowOnlyUnsafe", "C09_BorrowEnabled", "C09_BorrowSeizeExact", "C09_BorrowCustodyMoves", "C09_BorrowLive",
+              "C09_BorrowOnlyUnsafe", "C09_BorrowEnabled", "C09_BorrowSeizeExact", "C09_BorrowCustodyMoves", "C09_BorrowLive", "C09_BorrowLiveIlliquid",
               "C10_LendPaidWithinTarget", "C10_LendReceivedWithinSeized", "C10_LendPostedPrice", "C10_LendRemaining", "C10_LendCustody",
               "C10_LendPriceFalls", "C10_LendPriceInBand", "C10_LendStartPrice", "C10_LendProceeds", "C10_LendProceedsEmode",
               "C10_LendBridgedReturned", "C10_LendOwnerGetsRest", "C10_LendRecords", "Conf_Model", "Conf_Lend", "Conf_Deposit", "Conf_Withdraw", "Conf_CloseLend", "Conf_Borrow", "Conf_BorrowAlt",
@@ -215,6 +218,7 @@ Holds(f, i) ==
     [] f = "C09_BorrowSeizeExact" -> C09SeizeExact(nd)
     [] f = "C09_BorrowCustodyMoves" -> C09Custody(nd)
     [] f = "C09_BorrowLive" -> C09Live(i)
+    [] f = "C09_BorrowLiveIlliquid" -> C09LiveAny(i)
     [] f = "C10_LendPaidWithinTarget" -> C10PaidWithin(nd)
     [] f = "C10_LendReceivedWithinSeized" -> C10RecvWithin(nd)
     [] f = "C10_LendPostedPrice" -> C10Posted(nd)
@@ -267,9 +271,15 @@ Stats == PrintT(<<"STATS", [nodes |-> NLog,
            bridged2Seizures |-> Count(LAMBDA nd : Judged(nd) /\ \E b \in SeizedB(PreS(nd), PostS(nd)) : b.bram > 0 /\ b.bra = 3),
            emodeSeizures |-> Count(LAMBDA nd : Judged(nd) /\ \E b \in SeizedB(PreS(nd), PostS(nd)) : PairC(CfgOf(nd), b.pair).emode),
            safeLiquidateRequests |-> Count(LAMBDA nd : Judged(nd) /\ nd.a = "Liquidate" /\ nd.res.ok /\ SeizedB(PreS(nd), PostS(nd)) = {}),
+           nearSafeRequests |-> Count(LAMBDA nd : Judged(nd) /\ nd.a = "Liquidate" /\ nd.res.ok /\ HasId(Pre(nd).borrows, nd.args.b) /\
+                                   LET b == GetId(Pre(nd).borrows, nd.args.b) IN
+                                   ~b.liq /\ HasId(Post(nd).borrows, b.id) /\ ~GetId(Post(nd).borrows, b.id).ho /\ UnsafeWith(CfgOf(nd), Pre(nd), [b EXCEPT !.out = (@ * 11) \div 10], b.iT)),
+           nearSafeBridged2 |-> Count(LAMBDA nd : Judged(nd) /\ nd.a \in {"Liquidate", "Tick"} /\ \E b \in Range(Pre(nd).borrows) :
+                                   (nd.a = "Tick" \/ nd.args.b = b.id) /\ ~b.liq /\ b.bram > 0 /\ b.bra = 3 /\ HasId(Post(nd).borrows, b.id) /\ ~GetId(Post(nd).borrows, b.id).ho
+                                   /\ UnsafeWith(CfgOf(nd), Pre(nd), [b EXCEPT !.out = (@ * 11) \div 10], b.iT)),
            killedSteps |-> Count(LAMBDA nd : Judged(nd) /\ PreS(nd).x.ks /\ nd.a \in {"Liquidate", "Tick"}),
            blocks |-> Count(LAMBDA nd : ~IsRoot(nd) /\ IsBlock(nd)),
-           longWaits |-> Cardinality({i \in 1..NLog : ~IsRoot(Nd(i)) /\ IsBlock(Nd(i)) /\ \E b \in Range(Post(Nd(i)).borrows) : BadBlocks(i, b.id) >= 2}),
+           longWaits |-> Cardinality({i \in 1..NLog : ~IsRoot(Nd(i)) /\ IsBlock(Nd(i)) /\ \E b \in Range(Post(Nd(i)).borrows) : BadBlocks(i, b.id, TRUE) >= 2}),
            okBids |-> Count(BidOk),
            partialBids |-> Count(LAMBDA nd : BidOk(nd) /\ ~Closing(nd)),
            closingBids |-> Count(Closing),
